@@ -19,6 +19,8 @@ func genC36Case(t *rapid.T) colCase {
 		cfg.Sampler = samplerSpec{Kind: "keepall"}
 	}
 	cfg.TxDelayUs = rapid.SampledFrom([]int64{0, 0, 200, 5000, 60000}).Draw(t, "txdelay")
+	// slow decisions: Stop can then arrive while a worker is in the middle of a decision round
+	cfg.DecideDelayUs = rapid.SampledFrom([]int64{0, 0, 0, 300, 20000}).Draw(t, "decidedelay")
 	c := colCase{Cfg: cfg}
 	opGen := rapid.Custom(func(t *rapid.T) opSpec {
 		switch k := rapid.IntRange(0, 19).Draw(t, "opkind"); {
